@@ -70,8 +70,34 @@ pub proof fn lemma_p10_mono(a: nat, b: nat) requires a <= b ensures p10(a) <= p1
     if a == 0 && b == 0 { } else if a < b { lemma_p10_mono(a, (b - 1) as nat); } else { if a > 0 { lemma_p10_mono((a-1) as nat, (b-1) as nat); } }
 }
 
-/// D of the two reserves (18-digit fixed point) as calculate_stableswap_d returns it: ASSUMED a deterministic function of its arguments
-pub uninterp spec fn ss_dd(offer_pool: nat, ask_pool: nat, amp: u64, precision: u8) -> nat;
+// ---- the decimal D of the two reserves (18-digit fixed point), DEFINED as the Newton scheme calculate_stableswap_d documents ----
+// (it was an uninterpreted function before). All quantities are Decimal256 atomics; a product of two decimals is a*b/10^18 rounded down,
+// a quotient a*10^18/b rounded down, exactly as cosmwasm-std computes them. Where a checked operation of the real code fails the function
+// returns Err and the clause (r is Ok ==> ...) says nothing: the swap is rejected.
+pub open spec fn fxmul(a: nat, b: nat) -> nat { a * b / DEC }
+pub open spec fn fxdiv(a: nat, b: nat) -> nat { a * DEC / b }
+/// D_P = D * D/(2x) * D/(2y), each factor by multiply_ratio on the atomics
+pub open spec fn dd_prod(x: nat, y: nat, d: nat) -> nat { (d * d / fxmul(x, 2 * DEC)) * d / fxmul(y, 2 * DEC) }
+/// d' = ((ann * S + D_P * n) * d) / ((ann - 1) * d + (n + 1) * D_P),   n = 2
+pub open spec fn dd_next(x: nat, y: nat, sum: nat, ann: nat, d: nat) -> nat {
+    let dp = dd_prod(x, y, d);
+    fxdiv(fxmul(fxmul(ann, sum) + fxmul(dp, 2 * DEC), d), fxmul((ann - DEC) as nat, d) + fxmul(3 * DEC, dp))
+}
+/// the iteration from `d`: up to `k` further steps; it ends with the first iterate that differs from its predecessor by at most `tol`
+/// (one unit of the given precision); None when the steps run out (ConvergeError)
+pub open spec fn dd_iter(x: nat, y: nat, sum: nat, ann: nat, tol: nat, d: nat, k: nat) -> Option<nat> decreases k {
+    if k == 0 { None } else {
+        let dn = dd_next(x, y, sum, ann, d);
+        if (dn >= d && dn - d <= tol) || (dn < d && d - dn <= tol) { Some(dn) } else { dd_iter(x, y, sum, ann, tol, dn, (k - 1) as nat) }
+    }
+}
+/// D as calculate_stableswap_d returns it when it returns: 0 for an empty pool, else the iteration from x + y, for at most 32 steps
+#[verifier::opaque]
+pub open spec fn ss_dd(offer_pool: nat, ask_pool: nat, amp: u64, precision: u8) -> nat {
+    if offer_pool + ask_pool == 0 { 0 } else {
+        dd_iter(offer_pool, ask_pool, offer_pool + ask_pool, (amp as nat * 2) * DEC, p10((18 - precision) as nat), offer_pool + ask_pool, 32)->Some_0
+    }
+}
 /// one Newton step for y; None where the checked arithmetic of the real code fails (the swap is rejected)
 pub open spec fn y_step(y: nat, c: nat, b: nat, d: nat) -> Option<nat> {
     if y * y >= pow256() || y * y + c >= pow256() || y + y >= pow256() || y + y + b >= pow256() || y + y + b < d || y + y + b - d == 0 { None }
